@@ -26,6 +26,9 @@ type DiffMeta struct {
 	// solutions open, e.g. the order of bagof/setof groups); only for runs the reference completed.
 	Unordered bool        `json:"unordered,omitempty"`
 	Flags     [][2]string `json:"flags,omitempty"`
+	// SetupOverride: the Exec texts that build the database instead of Program's text (Program is what the reference
+	// runs: the database those texts are expected to leave behind)
+	SetupOverride []string `json:"setup_override,omitempty"`
 }
 
 // qvars returns the ids of the compared query variables.
@@ -85,6 +88,9 @@ func (d *DiffMeta) item() *Item {
 		}
 	} else {
 		c.Setup = []string{programText(d.Program)}
+	}
+	if len(d.SetupOverride) > 0 {
+		c.Setup = d.SetupOverride
 	}
 	max := d.Max
 	if max <= 0 {
